@@ -90,3 +90,63 @@ func VerifC18_JSONAutoID() {
 	}
 	vxCover("auto-id-reachable", true)
 }
+
+// ---- SaveDatabase: atomic replacement under faults and under an overlapping second save ------
+// (engine-native file-system model; natively only the fault-free, non-overlapping case exists)
+
+func vxOSFile(name, content string)        {}
+func vxOSFault(what string, on bool)       {}
+func vxOSContent(name string) string       { return "" }
+func vxOSWrittenInPlace(name string) bool  { return false }
+func vxOSFileCount() int                   { return 0 }
+func vxInterfere(w func())                 {}
+func vxInterfered() bool                   { return false }
+
+// VerifC18_SaveAtomic: whatever single call fails, the database file holds either the complete old
+// or the complete new content, it is never opened for writing in place, success is reported iff
+// the new content is in place, and an overlapping second save does not make a fault-free save fail.
+func VerifC18_SaveAtomic() {
+	if !vxSymbolic() {
+		return
+	}
+	s := NewScanner()
+	s.AddSignature(&detection.Signature{ID: "a", TopologyHash: "h"})
+	vxOSFile("/d/db.json", "OLD")
+	overlap := vxBool()
+	for _, f := range []string{"stat", "createtemp", "chmod", "encode", "sync", "close", "rename"} {
+		vxOSFault(f, vxBool())
+	}
+	var err2 error
+	if overlap {
+		vxInterfere(func() { err2 = s.SaveDatabase("/d/db.json") })
+	}
+	err := s.SaveDatabase("/d/db.json")
+	got := vxOSContent("/d/db.json")
+	vxAssert("file-is-complete-old-or-new", got == "OLD" || got == "NEW")
+	vxAssert("never-written-in-place", !vxOSWrittenInPlace("/d/db.json"))
+	if err == nil {
+		vxAssert("success-means-new-content", got == "NEW")
+		vxCover("success-reachable", true)
+	} else if !vxInterfered() {
+		vxAssert("failure-leaves-old-content", got == "OLD")
+		vxCover("failure-reachable", true)
+	}
+	_ = err2
+}
+
+// VerifC18_SaveOverlap: two overlapping saves of the same store, no faults: both succeed.
+func VerifC18_SaveOverlap() {
+	if !vxSymbolic() {
+		return
+	}
+	s := NewScanner()
+	s.AddSignature(&detection.Signature{ID: "a", TopologyHash: "h"})
+	vxOSFile("/d/db.json", "OLD")
+	var err2 error
+	vxInterfere(func() { err2 = s.SaveDatabase("/d/db.json") })
+	err := s.SaveDatabase("/d/db.json")
+	vxAssert("overlapping-saves-both-succeed", err == nil && err2 == nil)
+	vxAssert("final-content-complete", vxOSContent("/d/db.json") == "NEW")
+	vxAssert("no-temp-files-left", vxOSFileCount() == 1)
+	vxCover("second-save-ran-inside-the-first", vxInterfered())
+}
